@@ -339,6 +339,8 @@ var textGen = rapid.OneOf(
 	rapid.StringOfN(rapid.RuneFrom([]rune("<>&\"'\\/\t\n\r   abcXYZ012")), 0, 12, -1),
 	rapid.StringOfN(rapid.RuneFrom([]rune("αβγδ→日本語éüñ🧬 xyz")), 0, 12, -1),
 	rapid.Just(""),
+	// text that looks like an escape sequence of some serialisation but is plain text
+	rapid.SampledFrom([]string{"\\u003c", "a\\u0026b", "\\u003e1..5", "\\n", "\\\"", "\\\\", "&lt;", "&amp;amp;", "%3C%3E", "\\x00", "\\u2028", "{\"a\":1}", "null", "[]", "\\/", "$1", "%s %d"}),
 )
 
 func drawMap(t *rapid.T, name string) map[string]string {
